@@ -83,6 +83,16 @@ func (si *swInfo) clauseFor(r rune) *swClause {
 	return nil
 }
 
+// clauseFor0 is clauseFor for string case labels.
+func (si *swInfo) clauseFor0(s string) *swClause {
+	for _, c := range si.clauses {
+		if c.strs[s] {
+			return c
+		}
+	}
+	return nil
+}
+
 func (si *swInfo) allRunes() map[rune]bool {
 	out := map[rune]bool{}
 	for _, c := range si.clauses {
